@@ -29,7 +29,7 @@ REQUIRED = {
     "windows_checked": 200, "windows_with_termination": 20,
     "windows_after_wrap": 20, "reduced_views_checked": 20, "per_windows": 20,
 }
-TIMEOUT = {"quick": 900, "thorough": 3000}
+TIMEOUT = {"quick": 900, "thorough": 7000}
 ASSUMPTIONS = [
     "which starts are admissible is read from the buffer's own mask only to "
     "drive the stub generator and to skip sampling when nothing is admissible; "
@@ -40,7 +40,7 @@ ASSUMPTIONS = [
 def gen_cases(tier, seed):
     rng = np.random.default_rng(seed + 4004)
     cases = []
-    n_rand = 600 if tier == "quick" else 12000
+    n_rand = 600 if tier == "quick" else 40000
     for _ in range(n_rand):
         H = int(rng.integers(1, 6))
         cap = int(rng.integers(H + 1, 4 * H + 4))
